@@ -272,48 +272,86 @@ def is_noop(it):
     return it["k"] == "slice" and it["a"] is None and it["b"] is None and it["s"] is None
 
 
+TRANSPARENT = ("Sum", "PsdSum", "AddedDiag", "ConstantMul", "KronAddedDiag", "SumKron", "LowRankRootAddedDiag")
+
+
 def path_attrs(e, items, shape):
-    """structural attributes naming the library code path an index takes (used only to key known findings narrowly)"""
+    """structural attributes naming the library code path an index takes (used only to key known findings narrowly).
+    Block / Cat operators are also looked for under parents whose _getitem hands the row / column index on
+    (element-wise parents: unchanged; Matmul: (row, :) to the left factor, (:, col) to the right one)."""
     nd = len(shape)
     its = norm_items(items, nd)
     row, col = as_slice(its[-2]), as_slice(its[-1])
-    at = {"block_fast": False, "cat_idx": None, "cat_on_batch": None, "row_eq_col": bool(row == col and not is_noop(row)),
+    at = {"block_fast": False, "cat_idx": None, "cat_on_batch": None, "cat_dim3_batch_int": False, "row_eq_col": bool(row == col and not is_noop(row)),
           "batch_tensors_ge2": sum(1 for it in its[:-2] if it["k"] == "list" or (it["k"] == "t" and it["shape"])) >= 2}
-    if e["cls"] in ("BlockDiag", "BlockInterleaved") and row["k"] == "slice" and col["k"] == "slice" \
-            and not (is_noop(row) and is_noop(col)) and row["s"] is None and col["s"] is None:
-        base_shape = ob.shape_of(e["base"])
-        k = base_shape[-3]
-        rs, re_, cs, ce = row["a"] or 0, row["b"] or shape[-2], col["a"] or 0, col["b"] or shape[-1]
-        at["block_fast"] = not ((rs % k) or (cs % k) or (re_ % k) or (ce % k))
-    if e["cls"] == "Cat":
-        d = e["dim"] if e["dim"] < 0 else e["dim"] - nd
-        it = its[d]
-        at["cat_on_batch"] = d < -2
-        if d >= -2:
-            it = as_slice(it)
-        n = shape[d]
-        if it["k"] == "slice":
-            a, b = it["a"], it["b"]
-            if it["s"] is not None:
-                at["cat_idx"] = "step"
-            elif a is None and b is None:
-                at["cat_idx"] = "noop"
-            elif (a is not None and (a < -n or a >= n)) or (b is not None and (b >= n or b <= -n)):
-                at["cat_idx"] = "slice-wrap"       # `x % size` differs from slice.indices(size)
+
+    def visit(x, row, col):
+        c = x["cls"]
+        if c in ("BlockDiag", "BlockInterleaved") and row["k"] == "slice" and col["k"] == "slice" \
+                and not (is_noop(row) and is_noop(col)) and row["s"] is None and col["s"] is None:
+            xs = ob.shape_of(x)
+            k = ob.shape_of(x["base"])[-3]
+            rs, re_, cs, ce = row["a"] or 0, row["b"] or xs[-2], col["a"] or 0, col["b"] or xs[-1]
+            if not ((rs % k) or (cs % k) or (re_ % k) or (ce % k)):
+                at["block_fast"] = True
+        if c == "Cat" and at["cat_idx"] in (None, "noop", "slice-ok", "int"):
+            xs = ob.shape_of(x)
+            d = x["dim"] if x["dim"] < 0 else x["dim"] - len(xs)
+            if d >= -2:
+                it = row if d == -2 else col
             else:
-                at["cat_idx"] = "slice-ok"
-        elif it["k"] == "int" or (it["k"] == "t" and not it["shape"]):
-            v = it["v"] if it["k"] == "int" else it["data"][0]
-            at["cat_idx"] = "negint" if v < 0 else "int"
-        else:
-            at["cat_idx"] = "t2" if (it["k"] == "t" and len(it["shape"]) >= 2) else "t1"
+                it = its[d] if len(xs) == nd else None
+            if it is not None:
+                at["cat_on_batch"] = d < -2
+                at["cat_idx"] = cat_kind(it, xs[d])
+            if d == -3 and len(xs) >= 4 and any(b["k"] == "int" or (b["k"] == "t" and not b["shape"]) for b in its[:-2]):
+                at["cat_dim3_batch_int"] = True
+        if c in TRANSPARENT:
+            for kid in child_exprs(x):
+                visit(kid, row, col)
+        elif c in ("BlockDiag", "BlockInterleaved", "SumBatch"):
+            kid = x["base"]
+            if kid["cls"] == "Cat":
+                ks = ob.shape_of(kid)
+                dk = kid["dim"] if kid["dim"] < 0 else kid["dim"] - len(ks)
+                if dk == -3 and any(b["k"] == "int" or (b["k"] == "t" and not b["shape"]) for b in its[:-2]):
+                    at["cat_dim3_batch_int"] = True
+        elif c == "Matmul":
+            visit(x["l"], row, ix.S())
+            visit(x["r"], ix.S(), col)
+    visit(e, row, col)
     return at
+
+
+def child_exprs(e):
+    ks = list(e.get("ops", []))
+    for k in ("base", "l", "r", "kron", "diag", "a", "b", "root"):
+        if isinstance(e.get(k), dict) and "cls" in e[k]:
+            ks.append(e[k])
+    return ks
+
+
+def cat_kind(it, n):
+    """how the library's CatLinearOperator code sees the index of the concatenated dimension (size n)"""
+    if it["k"] == "slice":
+        a, b = it["a"], it["b"]
+        if it["s"] is not None:
+            return "step"
+        if a is None and b is None:
+            return "noop"
+        if (a is not None and (a < -n or a >= n)) or (b is not None and (b >= n or b <= -n)):
+            return "slice-wrap"       # `x % size` differs from slice.indices(size)
+        return "slice-ok"
+    if it["k"] == "int" or (it["k"] == "t" and not it["shape"]):
+        v = it["v"] if it["k"] == "int" else it["data"][0]
+        return "negint" if v < 0 else "int"
+    return "t2" if (it["k"] == "t" and len(it["shape"]) >= 2) else "t1"
 
 
 def case_key(e, cell, fail, op="getitem", debug=None, attrs=None):
     tc = tree_classes(e)
     k = {"op": op, "cls": e["cls"], "kids": kids_of(e), "cell": cell, "fail": fail, "debug": debug,
-         "chol_upper": "Chol:upper" in tc, "has_chol": any(c.startswith("Chol") for c in tc),
+         "chol_upper": "Chol:upper" in tc, "has_chol": any(c.startswith("Chol") for c in tc), "has_cat": "Cat" in tc,
          "has_zero": "Zero" in tc, "nbatch": len(ob.shape_of(e)) - 2}
     k.update(attrs or {})
     return k
@@ -381,6 +419,37 @@ def instances(ctx):
                     out.append(("%s|%s|%s" % (cls, batch, ch), e))
                 except Exception:      # noqa  generator cannot build this combination
                     continue
+    return out + extra_instances(ctx)
+
+
+def extra_instances(ctx):
+    """hand-structured instances the generic generator does not produce: concatenations with structured (non-dense)
+    components on every kind of dimension, block operators nested under element-wise parents, a Kronecker product of a
+    Kronecker product, an operator over a Cat.  Structure is fixed; the seed draws the values."""
+    rng = random.Random(ctx.seed * 7919 + 17)
+    g = lambda cls, **kw: ob.gen(rng, cls, **kw)
+    D = lambda *shape: {"cls": "Dense", "t": ob.rand_t(rng, list(shape))}
+    out = []
+    for batch in ([], [2]):
+        out.append(("x|Cat-1-structured|%s" % batch, {"cls": "Cat", "dim": -1, "ops": [
+            D(*batch, 3, 2), g("Toeplitz", batch=batch, m=3), g("Diag", batch=batch, m=3), D(*batch, 3, 1)]}))
+        out.append(("x|Cat-2-structured|%s" % batch, {"cls": "Cat", "dim": -2, "ops": [
+            g("Toeplitz", batch=batch, m=3), D(*batch, 1, 3), g("Root", batch=batch, m=3)]}))
+        out.append(("x|Sum(BlockDiag,Dense)|%s" % batch, {"cls": "Sum", "ops": [
+            {"cls": "BlockDiag", "base": D(*batch, 2, 2, 2), "block_dim": -3}, D(*batch, 4, 4)]}))
+        out.append(("x|ConstantMul(BlockInterleaved)|%s" % batch, {"cls": "ConstantMul", "c": ob.rand_t(rng, [], 1, 3),
+                    "base": {"cls": "BlockInterleaved", "base": D(*batch, 2, 2, 3), "block_dim": -3}}))
+        out.append(("x|Kron(Kron,Dense)|%s" % batch, {"cls": "Kron", "ops": [
+            {"cls": "Kron", "ops": [D(*batch, 2, 1), D(*batch, 1, 2)]}, D(*batch, 2, 3)]}))
+        out.append(("x|Matmul(Cat,Dense)|%s" % batch, {"cls": "Matmul", "l": {"cls": "Cat", "dim": -1, "ops": [
+            D(*batch, 3, 2), g("Toeplitz", batch=batch, m=3)]}, "r": D(*batch, 5, 2)}))
+        out.append(("x|BlockDiag(Cat-batch)|%s" % batch, {"cls": "BlockDiag", "block_dim": -3, "base": {
+            "cls": "Cat", "dim": -3, "ops": [D(*batch, 1, 2, 2), g("Toeplitz", batch=batch + [2], m=2)]}}))
+    out.append(("x|Cat0-structured|[3]", {"cls": "Cat", "dim": 0, "ops": [
+        g("Toeplitz", batch=[2], m=3), D(1, 3, 3), g("Diag", batch=[1], m=3)]}))
+    out.append(("x|Cat0-structured|[3,2]", {"cls": "Cat", "dim": 0, "ops": [
+        g("Toeplitz", batch=[2, 2], m=2), D(1, 2, 2, 2)]}))
+    out.append(("x|Cat1-of-2|[2,3]", {"cls": "Cat", "dim": 1, "ops": [D(2, 1, 2, 3), g("Kernel", batch=[2, 2], m=2, n=3)]}))
     return out
 
 
@@ -434,15 +503,21 @@ def stage_spec(ctx, rng):
 # ------------------------------------------------------------------------------------------ L4: end to end
 
 def e2e_rows(ctx, nd, inst_no):
-    """index-kind tuples for one instance: quick = a slice of the strength-2 covering array (the union over the
-    instances of a class covers the whole array); thorough = every kind tuple for ranks 2-3, covering array for rank 4"""
+    """index-kind tuples for one instance.  quick: a slice of the strength-2 covering array (the union over the
+    instances of a class covers the whole array).  thorough: every kind tuple for rank 2, the whole covering array plus
+    a deterministic sample of 400 further tuples (a different one per instance) for rank 3, the covering array for rank 4."""
     if ctx.quick:
         ca = ix.covering_array(nd)
         step = {2: 4, 3: 3, 4: 4}.get(nd, 4)
         return [(i, r) for i, r in enumerate(ca) if i % step == inst_no % step]
-    if nd <= 3:
+    if nd <= 2:
         return list(enumerate(ix.all_tuples(nd)))
-    return list(enumerate(ix.covering_array(nd)))
+    rows = list(enumerate(ix.covering_array(nd)))
+    if nd == 3:
+        allt = ix.all_tuples(3)
+        st = random.Random(1000 + inst_no)             # grid, not values: independent of the run seed
+        rows += [(len(rows) + j, allt[st.randrange(len(allt))]) for j in range(400)]
+    return rows
 
 
 def reference(op, e, stats):
@@ -639,6 +714,71 @@ def stage_diag(ctx, rng):
     return stats
 
 
+# ------------------------------------------------------------------------------------------ apply_permutation
+
+def stage_perm(ctx, rng):
+    """utils/permutation.apply_permutation (the library's own client of rank >= 2 broadcasting tensor indices in every
+    position): Pi_left K Pi_right^T against an element-by-element definition on the dense matrix"""
+    from linear_operator.utils.permutation import apply_permutation
+    from linear_operator import settings
+    stats = {"perm_evaluations": 0, "perm_direct_failures": 0}
+    seen = set()
+    for tag, e in instances(ctx):
+        if ctx.quick and (e["cls"], len(ob.shape_of(e))) in seen:
+            continue
+        seen.add((e["cls"], len(ob.shape_of(e))))
+        try:
+            op = ob.build(e)
+        except Exception:      # noqa
+            continue
+        ref = reference(op, e, {})
+        if ref is None:
+            continue
+        TD, dt = ref
+        bs, (m, n) = list(TD.shape[:-2]), TD.shape[-2:]
+        for variant in range(2):
+            def perm(size, batched):
+                k = rng.randint(1, size)
+                shp = (bs if batched else []) + [k]
+                cnt = int(torch.tensor(shp[:-1]).prod()) if shp[:-1] else 1
+                rows = []
+                for _ in range(cnt):
+                    p = list(range(size))
+                    rng.shuffle(p)
+                    rows += p[:k]
+                return torch.tensor(rows, dtype=torch.long).reshape(shp)
+            left = perm(m, variant == 1) if (variant == 1 or rng.random() < 0.8) else None
+            right = perm(n, variant == 1 and rng.random() < 0.5) if (variant == 0 or rng.random() < 0.8) else None
+            L = left if left is not None else torch.arange(m)
+            R = right if right is not None else torch.arange(n)
+            Lb = L.expand(*bs, L.shape[-1]) if bs else L
+            Rb = R.expand(*bs, R.shape[-1]) if bs else R
+            exp = torch.zeros(*bs, L.shape[-1], R.shape[-1], dtype=torch.float64)
+            for bi in itertools.product(*[range(x) for x in bs]):
+                for i in range(L.shape[-1]):
+                    for j in range(R.shape[-1]):
+                        exp[bi + (i, j)] = TD[bi + (int(Lb[bi + (i,)]), int(Rb[bi + (j,)]))]
+            for dbg in (True, False):
+                with settings.debug(dbg):
+                    try:
+                        r = apply_permutation(op, left, right)
+                        r = ("ok", rint(r) if is_integral(r) else r.detach(), r.dtype)
+                    except Exception as ex:      # noqa
+                        r = ("err", type(ex).__name__, str(ex)[:160])
+                stats["perm_evaluations"] += 1
+                fk = fail_kind(r, ("ok", exp), dt)
+                if fk is None:
+                    continue
+                if fk == "unsupported":
+                    fk = "raise:" + r[1]
+                stats["perm_direct_failures"] += 1
+                ctx.violation({"kind": "apply-permutation-differs-from-dense", "layer": "L4", "expr": e, "debug": dbg,
+                               "left": None if left is None else ob.from_torch(left), "right": None if right is None else ob.from_torch(right),
+                               "observed": obs_json(r), "expected": obs_json(("ok", exp)), "describe": ob.describe(e)},
+                              key=case_key(e, "apply_permutation", fk, op="apply_permutation", debug=dbg))
+    return stats
+
+
 # ------------------------------------------------------------------------------------------ run
 
 def search_on_failure_factory(ctx):
@@ -686,6 +826,7 @@ def run(ctx):
     tm["L4"] = round(time.time() - t0, 1)
     t0 = time.time()
     cov.update(stage_diag(ctx, rng))
+    cov.update(stage_perm(ctx, rng))
     tm["diag"] = round(time.time() - t0, 1)
     cov["stage_seconds"] = tm
     import linear_operator
